@@ -956,3 +956,19 @@ mut('c08-children-pruned', 'C08', ['C08.2'], M,
     "        for child_event in self.event_children:\n            for result in child_event.event_results.values():\n                if result.status == 'pending':",
     "        for event_result in self.event_results.values():\n            event_result.event_children[:] = [c for c in event_result.event_children if c.event_status != 'pending']\n        for child_event in self.event_children:\n            for result in child_event.event_results.values():\n                if result.status == 'pending':",
     'pending children are dropped from the child lists on timeout')
+
+mut('c01-auto-unsubscribe', 'C01', ['C01.7'], S,
+    "                except Exception as e:\n                    # Error already logged and recorded in execute_handler\n                    logger.debug(",
+    "                except Exception as e:\n                    if isinstance(e, RuntimeError) and handler in self.handlers.get(event.event_type, []):\n                        self.handlers[event.event_type].remove(handler)\n                    # Error already logged and recorded in execute_handler\n                    logger.debug(",
+    'handlers that raise RuntimeError are silently unsubscribed')
+mut('c01-on-inserts-front', 'C01', ['C01.7'], S,
+    "        self.handlers[event_key].append(handler)  # type: ignore\n", "        self.handlers[event_key].insert(0, handler)  # type: ignore\n",
+    'handlers registered at the front (order of delivery changes; the registry protocol is append-only)')
+mut('c16-wait-idle-restarts-after-stop', 'C16', ['C16.5'], S,
+    "        # Clear references\n        self._runloop_task = None\n",
+    "        # Clear references\n        self._runloop_task = None\n        if self.event_queue and self.event_queue.qsize() and timeout:\n            self._is_running = True\n",
+    'stop() marks the bus running again when events are left')
+mut('c16-stop-waits-idle-after-flag', 'C16', ['C16.5'], S,
+    "        # Clear references\n        self._runloop_task = None\n",
+    "        # Clear references\n        self._runloop_task = None\n        if timeout:\n            await asyncio.wait_for(self.wait_until_idle(timeout=timeout), timeout=timeout)\n",
+    'stop() calls wait_until_idle() (which calls _start()) after clearing the flag: the bus is restarted')
